@@ -12,7 +12,7 @@ from ..doubles import Model, Loss, Log, recording_storage_class, num
 LEVEL = 'exploration'
 RULE = ("Product: explainer class in {IncrementalPFI, IncrementalSage, BatchSage, IntervalSage} x {required arguments only, any subset "
         "of optional arguments overridden} x feature-name types (all str / int / float / mixtures, given as list, tuple or range) x d in 1..5 x n_inner (constructor, "
-        "per call) x per-call update_storage x stream prefixes; loss in {positional-only callable (def loss(y_true, y_pred, /)), a bound method obj.loss(y_true, y_pred), a functools.partial, a loss over (value, weight) TUPLE targets, river "
+        "per call) x per-call update_storage x stream prefixes; loss in {positional-only callable (def loss(y_true, y_pred, /)), a bound method obj.loss(y_true, y_pred), a functools.partial, a bool-valued zero-one loss, a loss over (value, weight) TUPLE targets, river "
         "MSE/MAE}; model in {plain callable, RiverWrapper, bound method of a fitted sklearn LinearRegression (-> SklearnWrapper)}. "
         "Oracle over the shared event log of the doubles: construction succeeds; per explain_one on an incremental explainer: "
         "seen_samples +1, model evaluations == 0 on the first call and == 1 + d*n_inner afterwards (marginal imputer), x / y / name "
@@ -104,6 +104,8 @@ def _mk_loss(kind, log):
         return loss
     if kind == 'tuple_target':
         return TupleTargetLoss(log)
+    if kind == 'zero_one':
+        return Loss({'kind': '01'}, 'float', log=log)      # the natural zero-one loss returns a Python bool
     if kind == 'bound_method':
         return _LossOwner(Loss({'kind': 'sq'}, 'float', log=log)).loss      # obj.loss with the documented (y_true, y_pred) signature
     if kind == 'partial':
@@ -292,7 +294,7 @@ def inc_cases(draw):
     if model == 'sklearn_bound':
         loss = 'positional'
     else:
-        loss = draw(st.sampled_from(['positional', 'positional', 'river_mse', 'river_mae', 'tuple_target', 'varargs', 'bound_method', 'partial']))
+        loss = draw(st.sampled_from(['positional', 'positional', 'river_mse', 'river_mae', 'tuple_target', 'varargs', 'bound_method', 'partial', 'zero_one']))
     spec = draw(cfgs.model_st(d, multi=False, allow_ignore=False))
     spec['outs'][0]['label'] = 'output'
     cls = draw(st.sampled_from(['pfi', 'sage']))
@@ -327,7 +329,7 @@ def batch_cases(draw):
     container = draw(st.sampled_from(['list', 'list', 'tuple', 'range']))
     if container == 'range':
         names = list(range(d))
-    case = {'names_container': container, 'cls': cls, 'names': names, 'spec': spec, 'loss': draw(st.sampled_from(['positional', 'positional', 'river_mse', 'tuple_target', 'varargs', 'bound_method', 'partial'])),
+    case = {'names_container': container, 'cls': cls, 'names': names, 'spec': spec, 'loss': draw(st.sampled_from(['positional', 'positional', 'river_mse', 'tuple_target', 'varargs', 'bound_method', 'partial', 'zero_one'])),
             'seeds': [draw(gen.seed32), draw(gen.seed32)], 'n_inner': draw(st.sampled_from([None, None, 1, 2])),
             'original': draw(st.booleans()), 'interval': draw(st.sampled_from([None, 1, 2, 3])),
             'storage_length': draw(st.integers(1, 4))}
